@@ -6,6 +6,16 @@ package c14
 const Prelude = `
 var GLOBAL = this;
 var REG = {}, REGIDS = [], XTRA = {};
+// the helpers keep working in a runtime whose library a script has changed: what they need is captured now
+var $parse = JSON.parse, $stringify = JSON.stringify;
+function ENC(v){
+  if (v === undefined) return {t:"undef"};
+  if (v === null) return {t:"null"};
+  if (typeof v === "boolean") return {t:"bool", b:v};
+  if (typeof v === "number") return {t:"num", n:$parse(NUMENC(v))};
+  if (typeof v === "string") return {t:"str", s:UNITS(v)};
+  return {t:"obj", id:-1};
+}
 function S(x){ return x === 0 ? (1/x < 0 ? "-0" : "0") : String(x); }
 function T(f){ try { f(); return "no"; } catch (e) { return (e instanceof Error) ? e.name : "value"; } }
 function CLS(x){ var s = Object.prototype.toString.call(x); return s.substring(8, s.length-1); }
@@ -94,14 +104,21 @@ function CALLRES(F, src){
   catch (e) { return {t:"throw", name:(e instanceof Error) ? e.name : "value"}; }
   return ISOBJ(v) ? {t:"obj"} : ENC(v);
 }
-function CALLON(id, src){ return JSON.stringify(CALLRES(REG[id], src)); }
+function CALLON(id, src){ return $stringify(CALLRES(REG[id], src)); }
 
 function OBSOBJ(l){
   var o = REG[l.id];
-  if (!ISOBJ(o)) return {ty:typeof o, "new":"", cls:"", proto:"", ext:false, missing:l.names, enumextra:[]};
+  if (!ISOBJ(o)) return {ty:typeof o, "new":"", cls:"", proto:"", ext:false, missing:l.names, dupnames:[], enumextra:[]};
   var own = Object.getOwnPropertyNames(o), missing = [], enumextra = [], extra = [];
-  for (var i = 0; i < l.names.length; i++)
-    if (!Object.prototype.hasOwnProperty.call(o, l.names[i])) missing.push(l.names[i]);
+  // a listed name must be an own property AND be reported exactly once by Object.getOwnPropertyNames
+  var dup = [];
+  for (var i = 0; i < l.names.length; i++) {
+    var cnt = 0;
+    for (var c = 0; c < own.length; c++) if (own[c] === l.names[i]) cnt++;
+    if (!Object.prototype.hasOwnProperty.call(o, l.names[i]) || cnt === 0) missing.push(l.names[i]);
+    if (cnt > 1) dup.push(l.names[i]);
+  }
+  for (var c2 = 0; c2 < own.length; c2++) if (!Object.prototype.hasOwnProperty.call(o, own[c2])) dup.push("?" + own[c2]);
   for (var j = 0; j < own.length; j++) {
     var known = false;
     for (var k = 0; k < l.names.length; k++) if (l.names[k] === own[j]) known = true;
@@ -118,7 +135,7 @@ function OBSOBJ(l){
           cls: l.mask.cls ? CLS(o) : "?",
           proto: l.mask.proto ? PATHOF(Object.getPrototypeOf(o)) : "?",
           ext: Object.isExtensible(o),
-          missing: missing,
+          missing: missing, dupnames: dup,
           enumextra: l.mask.enumextra ? enumextra : []};
 }
 // Object.getOwnPropertyDescriptor answers for every own property (a Go panic is seen by the caller)
@@ -134,22 +151,23 @@ function REFLECTALL(id){
   }
   return "ok";
 }
-function EXTRAS(){ return JSON.stringify(XTRA); }
+function EXTRAS(){ return $stringify(XTRA); }
 
-function FORIN(js){
-  var o = (0,eval)(js), r = [];
+function FORIN(js, id, registered){
+  // in a runtime whose library a script has changed the subject is the instance registered before the change
+  var o = registered ? REG[id] : (0,eval)(js), r = [];
   for (var k in o) r.push(k);
   r.sort();
   return r;
 }
 
 function OBSLINE(text){
-  var l = JSON.parse(text), r;
+  var l = $parse(text), r;
   if (l.k === "obj") r = OBSOBJ(l);
   else if (l.k === "row") r = OBSROW(l.owner, l.name, l.exp);
   else if (l.k === "call") r = CALLRES(REG[l.id], l.call);
-  else r = FORIN(l.js);
-  return JSON.stringify(r);
+  else r = FORIN(l.js, l.id, l.mut === true);
+  return $stringify(r);
 }
 
 // judge direction: every own property of every object of the table, and of the objects the implementation
@@ -191,7 +209,7 @@ function WALK(listedIds, instIds, noReflect, preNames){
       evs.push({ev:"prop", o:id, listed:isl, fn:isfn, host:host, n:n, e:en, obs:obs});
     }
   }
-  return JSON.stringify(evs);
+  return $stringify(evs);
 }
 
 // the complete shape of everything reachable from the global object: objects numbered in order of
@@ -207,7 +225,7 @@ function DUMP(skip){
   function show(v){
     if (ISOBJ(v)) return "#" + idOf(v);
     if (typeof v === "number") return "n:" + S(v);
-    if (typeof v === "string") return "s:" + JSON.stringify(v);
+    if (typeof v === "string") return "s:" + $stringify(v);
     return String(v);
   }
   for (var n = 0; n < objs.length; n++) {
@@ -219,12 +237,12 @@ function DUMP(skip){
     for (var i = 0; i < names.length; i++) {
       var sk = false;
       for (var q = 0; q < skip.length; q++) if (skip[q] === names[i]) sk = true;
-      if (sk) { out.push("  " + JSON.stringify(names[i]) + " (not reflected) e=" + Object.prototype.propertyIsEnumerable.call(o, names[i])); continue; }
+      if (sk) { out.push("  " + $stringify(names[i]) + " (not reflected) e=" + Object.prototype.propertyIsEnumerable.call(o, names[i])); continue; }
       var d = Object.getOwnPropertyDescriptor(o, names[i]);
       if ("get" in d || "set" in d)
-        out.push("  " + JSON.stringify(names[i]) + " acc " + ATTR(d.enumerable) + ATTR(d.configurable) + " get=" + show(d.get) + " set=" + show(d.set));
+        out.push("  " + $stringify(names[i]) + " acc " + ATTR(d.enumerable) + ATTR(d.configurable) + " get=" + show(d.get) + " set=" + show(d.set));
       else
-        out.push("  " + JSON.stringify(names[i]) + " " + ATTR(d.writable) + ATTR(d.enumerable) + ATTR(d.configurable) + " " + show(d.value));
+        out.push("  " + $stringify(names[i]) + " " + ATTR(d.writable) + ATTR(d.enumerable) + ATTR(d.configurable) + " " + show(d.value));
     }
   }
   return out.join("\n");
